@@ -55,21 +55,22 @@ def check(run, model, tier):
             raise AnalysisError('ActiveObject.%s not found' % nm)
         g = cfg_of(f)
         run.touch(f, g)
-        tests = [t for t in g.nodes if t.kind == 'test' and isinstance(t.ast, ast.Compare) and dotted(t.ast.left) == 'period'
-                 and isinstance(t.ast.ops[0], (ast.Is, ast.Eq)) and isinstance(t.ast.comparators[0], ast.Constant) and t.ast.comparators[0].value is None]
-        if len(tests) != 1:
-            raise AnalysisError('%s: `period is None` selector not found' % f.qualname)
-        t = tests[0]
+        # the test on `period` that separates the plain post from the timed one (whatever its spelling: which values of period count as "no period" is C10's
+        # question): one side delegates exactly once on every path, the other never
+        tests = [t for t in g.nodes if t.kind == 'test' and any(isinstance(x, ast.Name) and x.id == 'period' for x in ast.walk(t.ast))]
+        if not tests:
+            raise AnalysisError('%s: no test on `period` separates the plain post from the timed one' % f.qualname)
         dels = [n for n in g.nodes if wrap.delegation_calls(n, f)]
-        for m, l in g.succ[t]:
-            cnt = g.count_on_paths(lambda n: len(wrap.delegation_calls(n, f)), start=m)
-            if l == 'true':
-                ok = cnt == (1, 1)
-                run.inst('ENDS.post', f, 'untimed %s delegates exactly once to the queued chart' % nm, ok,
-                         '' if ok else 'an untimed %s reaches HsmWithQueues.%s %s times' % (nm, nm, cnt), obligation=True)
-            else:
-                ok = cnt == (0, 0)
-                run.inst('ENDS.post', f, 'timed %s does not post immediately' % nm, ok, '' if ok else 'a timed post also posts at once', obligation=True)
+        verdicts = []
+        for t in tests:
+            cnts = {}
+            for m, l in g.succ[t]:
+                cnts[l] = g.count_on_paths(lambda n: len(wrap.delegation_calls(n, f)), start=m)
+            verdicts.append((t, cnts))
+        good = [v for v in verdicts if sorted(v[1].values()) == [(0, 0), (1, 1)]]
+        run.inst('ENDS.post', f, 'one side of the test on `period` delegates exactly once to the queued chart, the other side never', bool(good),
+                 '' if good else 'the plain/timed split of %s delegates to HsmWithQueues.%s %s times on the two sides of `%s`: an untimed post is lost or doubled, or a timed post also posts at once'
+                 % (nm, nm, verdicts[0][1], norm(verdicts[0][0].ast)), obligation=True)
         for n in dels:
             for c, how in wrap.delegation_calls(n, f):
                 args = c.args if how == 'super' else c.args[1:]
